@@ -1,5 +1,5 @@
 import LunaVerif.Core.Proto
-import LunaVerif.Model.Device.Control
+import LunaVerif.Model.Device.ControlM
 open LunaVerif LunaVerif.Proto LunaVerif.Device
 
 /-!
@@ -12,7 +12,12 @@ input line  : `fKind fPid fLen  evKind …`     (foreign response first: 0 none 
                      4 malformed len byte* | 5 quiet | 6 busReset | 7 produce ep last len byte*
                      8 consume ep n | 9 setSignal ep v
 output line : `legal address configuration rKind rPid rLen byte*`
-              (`legal` = the event satisfies `legalEvent` in the state before it)
+              (`legal` = the event satisfies `legalEventM` in the state before it)
+
+The model stepped is `Device.stepM` (Model/Device/ControlM.lean): `Device.step` with the GET_DESCRIPTOR advance
+`start_position += maxPacket` (the `#` line's first integer = the control endpoint's max_packet_size of the case) and
+the LegalHost ghost "short packet" compared with `maxPacket`.  For `maxPacket = 64` it IS `Device.step` /
+`Device.legalEvent` (Lemmas/C07Mps.lean `stepM_eq_step`, Lemmas/C07MpsLegal.lean `legalEventM_64`).
 -/
 
 def parseDescs : Nat → List Nat → List (Nat × Nat × List Nat)
@@ -65,6 +70,6 @@ def main : IO Unit :=
     (fun cfg => (parseConfig cfg, init))
     (fun (c, s) row =>
       let x := parseStim row
-      let legal := legalEvent c s x
-      let (s', r) := step c s x
+      let legal := legalEventM c s x
+      let (s', r) := stepM c s x
       ((c, s'), [b2n legal, s'.address, s'.config] ++ encodeResp r))
